@@ -62,6 +62,11 @@ def _search_batch(job):
                 # ... and the way `update` finds occurrences: parse.iter_matches over the lines of a file (one match per pattern and line)
                 ms = [x for x in parse.iter_matches([line], [cp_])]
                 hit2 = list(ms[0].span) if ms else [-1, -1]
+                if ms and len(line) > 0:
+                    # the same line twice in one file (an empty line between): both are occurrences
+                    ms3 = [x for x in parse.iter_matches([line, "", line], [cp_])]
+                    if sorted(x.lineno for x in ms3) != [0, 2] or any(list(x.span) != hit2 for x in ms3):
+                        hit2 = [-1, -1]
                 if hit2 != hit and not (hit[0] == hit[1] and hit2 == [-1, -1]):        # an empty match is not an occurrence
                     out.append(dict(ev="search", P=P, line=glue.cp(line), hit=hit2, pat=pat, kind=kind, dbg="%r on %r (parse.iter_matches; the regexp itself gives %s)" % (pat, line, hit)))
             out.append(dict(ev="search", P=P, line=glue.cp(line), hit=hit, pat=pat, kind=kind,
